@@ -263,6 +263,27 @@ def cards_part(run, bulk):
                 if gotc is None or len(gotc) != 2 or trim(gotc[0]) != trim(got[0]) or list(gotc[1]) != [7, 8.5]:
                     run.violation("fixed-field and comma-separated forms of the same card read differently", dict(case, fixed=repr(got[0]),
                                   comma=repr(gotc), text=clines), {"fn": "comma"})
+                # growth (a third rendering the statement does not name): the fixed-field lines with every field left-justified and its
+                # padding replaced by tab characters (a tab advances to the next multiple of 8 columns)
+                try:
+                    w_ = 8 if wname == "wtcard8" else 16
+                    tlines = []
+                    for ln in mine:
+                        ln = ln.ljust(80)
+                        fl = [ln[:8]] + [ln[8 + w_ * k_:8 + w_ * (k_ + 1)] for k_ in range(64 // w_)] + [ln[72:80]]
+                        out_ = ""
+                        for fi_, c_ in enumerate(fl):
+                            wid = 8 if fi_ in (0, len(fl) - 1) else w_
+                            c_ = c_.strip()
+                            out_ += c_ + "\t" * ((wid - len(c_) + 7) // 8 if len(c_) < wid else 0)
+                        tlines.append(out_.rstrip("\t") if not out_.rstrip("\t").endswith(("+", "*")) else out_.rstrip("\t"))
+                    ttext = "OTHER\t1\t2\n" + "\n".join(tlines) + "\nTGT\t7\t8.5\n"
+                    gott = bulk.rdcards(io.StringIO(ttext), "tgt", return_var="list")
+                    if gott is None or len(gott) != 2 or trim(gott[0]) != trim(got[0]) or trim(gott[1]) != [7, 8.5]:
+                        run.deviation("NasCard (tab form)", "the fixed-field card with tab-padded, left-justified fields reads differently from the blank-padded one",
+                                      dict(case, fixed=repr(got[0]), tabs=repr(gott), text=tlines))
+                except Exception as ex:
+                    run.deviation("NasCard (tab form)", "rdcards raised %r on the tab-padded form" % ex, dict(case, text=mine))
                 # short free-field lines (trailing blank fields left out, no continuation marker in field 10), with and without the name
                 slines = []
                 for i in range(0, len(strs), 8):
